@@ -12,14 +12,17 @@ VERIFY_MODULES = ['peripheral::etrade_plan_pdf_tx_extract_impl']
 def build(ctx):
     p = bk.parts(ctx)
     btx = Src(ctx, 'peripheral/broker/broker_tx.rs').cut_tests().standard()
-    btx.drop_rx(r'(?m)^impl Into<crate::portfolio::CsvTx> for BrokerTx \{', why='(conversion to CsvTx: string formatting)')
     btx.strip_derive('BrokerTx', 'Clone')
     et = Src(ctx, 'peripheral/broker/etrade.rs').cut_tests().standard()
-    et.only(['struct BenefitEntry'], why='regex-based PDF text parsers are outside the verifier')
+    et.only(['struct BenefitEntry', 'struct SellToCoverData', 'impl BenefitEntry'], why='regex-based PDF text parsers are outside the verifier')
+    et.ext_fn('sell_to_cover_data', why='local struct with derived Default/PartialEq; contract: all five fields or none')
     et.sub(r'(?ms)^use [^;]*;\n', '', 'select')
     et.strip_derive('BenefitEntry', 'Clone')
     im = Src(ctx, 'peripheral/etrade_plan_pdf_tx_extract_impl.rs').cut_tests().standard()
-    im.only(['struct PdfData', 'fn find_sell_to_cover_trade_set', 'struct BenefitsAndTrades', 'struct AmendBenefitsRes', 'fn amend_benefit_sales'],
+    im.enum_loop("for (i, b) in trade_data.benefits.iter().enumerate() {", "let mut i: usize = 0;\n    for b in trade_data.benefits.iter() {", 'i')
+    im.enum_loop("for (i, trade) in trade_data.other_trades.iter().enumerate() {", "let mut i: usize = 0;\n    for trade in trade_data.other_trades.iter() {", 'i')
+    im.sub(r'(?s)tx\.memo = Some\(\s*match tx\.memo \{.*?\} \+ "\(manual trade\)",\s*\);', 'tx.memo = Some(crate::fmt_stub());', 'H', required=True)
+    im.only(['struct PdfData', 'fn txs_from_data', 'fn find_sell_to_cover_trade_set', 'struct BenefitsAndTrades', 'struct AmendBenefitsRes', 'fn amend_benefit_sales'],
             why='pdf parsing, the itertools subset search and CSV rendering are outside the verifier')
     im.sub(r'(?ms)^use [^;]*;\n', '', 'select')
     im.ext_fn('find_sell_to_cover_trade_set', why='itertools combination search; contract: distinct candidates, at least one')
@@ -28,8 +31,8 @@ def build(ctx):
                "hole_position(&leftover_trade_confs, t, &indexes)\n                        .unwrap();", 'H')
     im.sub(r'(?s)warn \+= &format!\((.*?)\);', r'crate::str_append(&mut warn, format!(\1));', 'H', required=True)
     use_et = "use crate::rust_decimal::Decimal;\nuse crate::time::Date;\nuse crate::util::basic::SError;\n"
-    use_im = ("use vstd::multiset::Multiset;\nuse vstd::std_specs::iter::IteratorSpec;\nuse crate::stdx::*;\nuse crate::rust_decimal::Decimal;\nuse crate::time::Date;\nuse crate::util::basic::SError;\nuse crate::portfolio::TxAction;\n"
-              "use crate::peripheral::broker::BrokerTx;\nuse crate::peripheral::broker::etrade::BenefitEntry;\n")
+    use_im = ("use crate::portfolio::CsvTx;\nuse crate::portfolio::Currency;\nuse vstd::multiset::Multiset;\nuse vstd::std_specs::iter::IteratorSpec;\nuse crate::stdx::*;\nuse crate::rust_decimal::Decimal;\nuse crate::time::Date;\nuse crate::util::basic::SError;\nuse crate::portfolio::TxAction;\n"
+              "use crate::peripheral::broker::BrokerTx;\nuse crate::peripheral::broker::etrade::{BenefitEntry, SellToCoverData};\n")
     per = (mod('broker', mod('broker_tx', btx.text(), '') + "pub use self::broker_tx::*;\n" + mod('etrade', use_et + et.text()))
            + mod('etrade_plan_pdf_tx_extract_impl', use_im + im.text()))
     return (shim('base', 'std') + "verus! {\n" + bk.assemble(p, extra_top=mod('peripheral', per))
